@@ -412,7 +412,12 @@ def run(repo, tier):
         "and |k ln 2 + (r + c) - x| <= ulp(x) are checked in exact rational arithmetic (R17.5). Trigonometric reduction: only the last "
         "step (R17.3) and the shortcut guard (R17.4) are decided; its numeric bound (a Payne-Hanek product with a multiword 2/pi) is not."
     )
-    r.trusted_base = ["Python ast", "ln 2 and 1/ln 2 to 100 digits", "struct rounding of literals to binary16/32"]
+    r.trusted_base = ["Python ast", "ln 2 to 100 digits", "struct rounding of literals to binary16/32", "sa/kernels.py extraction, sa/absint.py interpretation"]
+    r.assumptions = [
+        "every operation of the reduction is one IEEE-754 operation in the format of x, rounded to nearest (monotone), without flush-to-zero; floor/trunc/round are exact",
+        "R17.3/R17.6: identities hold under exact-arithmetic semantics of + - *; R17.7 discharges exactness for the partial products only",
+        "the words of the multiword 2/pi have at most `prec` significant bits (R13.5 decides the slicing in utils.mpf2multiword)",
+    ]
     r.rule("R17.3", "trigonometric reduction: the returned double-word remainder equals (y + t) * (pi/2 double-word) as an exact-arithmetic polynomial identity (2Sum summarised by its contract); the product modulo 4 is applied to the split of x and the whole multiword 2/pi", floor=3)
     r.rule("R17.4", "trigonometric reduction: the no-reduction shortcut (r = x, t = 0) is guarded by |x| < (head word of pi/2) / 2, symmetric in the sign of x", floor=2)
     r.rule("R17.5", "exponential reduction, derived per format by partitioning the domain by k (exact rational bounds from monotone rounding, Sterbenz, one rounding of k*ln2lo): |r + c| <= 0.55 ln 2 and |k ln2 + (r + c) - x| <= ulp(x) for every admissible x", floor=3)
